@@ -85,11 +85,31 @@ def run(tier, out, model_ok, proof):
             roots.insert(rng.randint(1, len(roots)), treecorr.Node("MACRO @unused%d" % i, [treecorr.Node(rng.choice(["Request any", "Query q\n{}", "Headers\n{}", "404 any"]))], explicit=True))
         files = C09.split_project(rng, roots) if rng.random() < 0.5 else {"root.jst": C09.render_nodes(roots)}
         projects.append(files)
+    # projects that are refused for a reason of their own (no JSIGHT directive, JSIGHT not first, one
+    # injected rule fault): a ban of kinds that do not occur must leave exactly that refusal
+    C03 = importlib.import_module("checks.C03")
+    base = list(projects)
+    for i in range(24 if big else 8):
+        files = dict(base[i % len(base)])
+        root = files["root.jst"].split(b"\n")
+        j = next((k for k, l in enumerate(root) if l.startswith(b"JSIGHT")), None)
+        if j is None:
+            continue
+        if i % 2 == 0:
+            del root[j]
+        else:
+            root.insert(j, b"TYPE @early%d any" % i)
+        files["root.jst"] = b"\n".join(root)
+        projects.append(files)
+    for cls, d in C03.fault_docs(rng, 2 if big else 1):
+        projects.append({"root.jst": d})
+    for d in (b"TYPE @cat any\n", b"URL /cats\n  GET\n    200 any\n", b"INFO\n  Title \"T\"\n", b"MACRO @m\n(\n  TYPE @x any\n)\nPASTE @m\n", b"# nothing\n", b""):
+        projects.append({"root.jst": d})
     cases, metas, splits = [], [], []
     pairs = [(k,) for k in KINDS] + ([tuple(p) for p in itertools.combinations(KINDS, 2)] if big else [])
     for i, files in enumerate(projects):
         cases.append(treecorr.project_case("b%d_plain" % i, files))
-        sets = pairs if big and i < 40 else [(k,) for k in KINDS] + [tuple(rng.sample(KINDS, 2)) for _ in range(12)]
+        sets = pairs if big and i < 40 else [(k,) for k in KINDS] + [tuple(rng.sample(KINDS, 2)) for _ in range(12)] + [("JSIGHT", rng.choice(KINDS[1:]))]
         for j, bs in enumerate(sets):
             c = treecorr.project_case("b%d_%d" % (i, j), files)
             c["banned"] = list(bs)
@@ -146,7 +166,7 @@ def run(tier, out, model_ok, proof):
     out.coverage.update({
         "evaluations": len(cases),
         "distinct_nontrivial": rejected + neutral,
-        "rule": "structured projects (single file, include trees, macro forms, unused macros) x ban sets: every single kind of the 31%s; every pair also given as several options in both orders (must equal the single option); expected verdict computed from the kinds written in the project text (lib: line_kinds): rejected with the not-allowed error on a banned directive if one occurs, otherwise byte-identical to the build without the option" % (", every pair on 40 projects and sampled pairs elsewhere" if big else " and 12 sampled pairs per project"),
+        "rule": "structured projects (single file, include trees, macro forms, unused macros; also projects refused for a reason of their own: no JSIGHT directive, JSIGHT not first, one injected rule fault of each class, empty file) x ban sets: every single kind of the 31%s; every pair also given as several options in both orders (must equal the single option); expected verdict computed from the kinds written in the project text (lib: line_kinds): rejected with the not-allowed error on a banned directive if one occurs, otherwise byte-identical to the build without the option" % (", every pair on 40 projects and sampled pairs elsewhere" if big else " and 12 sampled pairs per project"),
         "samples": [{"banned": list(metas[0][2]), "root": projects[0]["root.jst"].decode("latin1")[:200]}],
         "rejected_as_expected": rejected, "neutral_cases": neutral,
         "exhaustive": big,
